@@ -1,5 +1,7 @@
 import VaxisModel.Driver.Common
 import VaxisModel.Model.Render
+import VaxisModel.Model.RenderClip
+import VaxisModel.Spec.ExpectedClip
 import VaxisModel.Spec.Display
 import VaxisModel.Spec.Expected
 import VaxisModel.Spec.Tokenize
@@ -110,7 +112,7 @@ def verdict (s : St) (next : Grid) (t : Term) : String :=
   match t.bad with
   | some why => s!"FAIL terminal-specific behaviour relied on: {why}"
   | none =>
-  match gridDiff next (Expected.expected (cwOf s.dict) s.caps next) t.grid with
+  match gridDiff next (Expected.expectedC (cwOf s.dict) s.caps next) t.grid with
   | some d => s!"FAIL {d}"
   | none =>
   if t.pen ≠ TStyle.reset then s!"FAIL pen not reset after flush: {t.pen.toString}"
@@ -141,7 +143,7 @@ def frame (s : St) (enc : String) (implHex : String) (forceRefresh : Bool) : St 
     let refresh := s.refresh || forceRefresh
     let f : Frame := { caps := s.caps, refresh := refresh, next := next, last := s.last,
                        cursorNext := s.cn, cursorLast := s.cl, shapeNext := s.shapeN, shapeLast := s.shapeL }
-    let (last', mtoks) := renderFrame (cwOf s.dict) f
+    let (last', mtoks) := renderFrameC (cwOf s.dict) f
     let dictBytes := s.dict.filterMap fun (g, _) => hexBytes? g
     let itoks := Tokenize.tokens dictBytes bytes
     let t0 := if refresh then scramble s.term else s.term
@@ -159,6 +161,9 @@ def step (s : St) (line : String) : St × String :=
   let (op, impl) := splitTab line
   match fields op with
   | "#case" :: _ => ({}, "-\t-\t-")
+  | "session" :: _ => (s, "-\t-\t-")      -- corpus scenario lines: what the harness did, for replay
+  | "set" :: _ => (s, "-\t-\t-")
+  | ["clear"] => (s, "-\t-\t-")
   | ["caps", a, b, c, d] =>
       ({ s with caps := { rgb := a == "1", styledUnderlines := b == "1", explicitWidth := c == "1", sync := d == "1" } }, "-\t-\t-")
   | ["size", w, h] =>
